@@ -705,6 +705,7 @@ func runC10(c *Ctx, r *Rec) {
 			return true
 		})
 	}
+	checkKeyValueSameEntry(c, r, "D2-key-value-same-entry", info, fr.ms)
 	follow := []string{",", "\n", "]", ":", ")", " "}
 	for _, f := range follow {
 		al.addString(f)
@@ -1135,4 +1136,68 @@ func checkFormatterPurity(c *Ctx, r *Rec, fr *fmtRoles) {
 		r.check(bad == "", "D3-depth-balanced", c.fdName(fd), c.pos(fd.Pos()), "net depth change zero on every normal path", bad)
 	}
 	r.floor("D3-depth-balanced", 1)
+}
+
+// checkKeyValueSameEntry: where the formatter hands a key and a value to one call and the value
+// is a reflective map lookup, the key looked up and the key printed come from the same slot of
+// the same array of keys.  A key taken from a sorted copy and a value looked up through the
+// unsorted array pair the keys with the values of other keys.
+func checkKeyValueSameEntry(c *Ctx, r *Rec, rule string, info *types.Info, ms map[string]*ast.FuncDecl) {
+	for _, name := range sortedKeys(ms) {
+		fd := ms[name]
+		if fd.Body == nil {
+			continue
+		}
+		// strips conversions to interface values and follows single definitions
+		var deep func(e ast.Expr, n int) ast.Expr
+		deep = func(e ast.Expr, n int) ast.Expr {
+			e = ast.Unparen(e)
+			if n > 6 {
+				return e
+			}
+			if id, ok := e.(*ast.Ident); ok {
+				if init := initOf(info, fd, id); init != nil {
+					return deep(init, n+1)
+				}
+				return e
+			}
+			if rx, mname, call, ok := methodCall(e); ok && mname == "Interface" && len(call.Args) == 0 {
+				return deep(rx, n+1)
+			}
+			return e
+		}
+		var viol []string
+		n := 0
+		inspectNoLit(fd.Body, func(x ast.Node) bool {
+			call, ok := x.(*ast.CallExpr)
+			if !ok || len(call.Args) != 2 {
+				return true
+			}
+			v := deep(call.Args[1], 0)
+			_, mname, lk, ok := methodCall(v)
+			if !ok || mname != "MapIndex" || len(lk.Args) != 1 {
+				return true
+			}
+			looked, ok1 := deep(lk.Args[0], 0).(*ast.IndexExpr)
+			printed, ok2 := deep(call.Args[0], 0).(*ast.IndexExpr)
+			if !ok1 || !ok2 {
+				return true
+			}
+			a, b := identObj(info, printed.X), identObj(info, looked.X)
+			if a == nil || b == nil {
+				return true
+			}
+			n++
+			if a != b {
+				viol = append(viol, fmt.Sprintf("at %s the key printed is %s but the value printed is looked up with %s: position %s of two different arrays, so keys are paired with the values of other keys", c.pos(call.Pos()), exprStr(printed), exprStr(looked), exprStr(looked.Index)))
+			} else if exprStr(printed.Index) != exprStr(looked.Index) {
+				viol = append(viol, fmt.Sprintf("at %s the key printed is %s but the value printed is looked up with %s", c.pos(call.Pos()), exprStr(printed), exprStr(looked)))
+			}
+			return true
+		})
+		if n == 0 {
+			continue
+		}
+		r.check(len(viol) == 0, rule, c.fdName(fd), c.pos(fd.Pos()), fmt.Sprintf("%d key/value pairs: the value is looked up with the very key that is printed", n), strings.Join(dedup(viol), " | "))
+	}
 }
